@@ -66,6 +66,8 @@ arguments.  A value or test that moved into a function of the package which is *
 ANALYSIS-ERROR ("not followed"), not a violation; a private function nothing refers to any more is not on the serving path.
 """
 import ast
+import builtins
+import copy
 
 from ..core import AnalysisError, norm, short
 from .common import (cfg_of, fkey, conds, has_cond, cond_texts, stmts_of, walk_body, call_tail, call_name,
@@ -156,18 +158,151 @@ def _internal_callee(fi, e):
     return None
 
 
+def _callee_info(fi, call):
+    """FuncInfo of the function of the package ``call`` reaches (``f(..)`` at module level, ``self.m(..)`` through the MRO)."""
+    f = call.func
+    repo = fi.mod.repo
+    if isinstance(f, ast.Name) and f.id not in _locals_of(fi):
+        kind, m, obj = repo.resolve(fi.mod, f.id)
+        if kind == 'func' and m is not None and not m.external:
+            return obj
+    if isinstance(f, ast.Attribute) and isinstance(f.value, ast.Name) and f.value.id in ('self', 'cls') and fi.cls is not None:
+        return repo.find_method(fi.cls, f.attr)
+    return None
+
+
+def _falls_off(body):
+    """A block can run off its end (True / False); None: not decided here (loops, try, match)."""
+    if not body:
+        return True
+    last = body[-1]
+    if isinstance(last, (ast.Return, ast.Raise)):
+        return False
+    if isinstance(last, ast.If):
+        a, b = _falls_off(last.body), _falls_off(last.orelse)
+        return True if (a is True or b is True) else (None if (a is None or b is None) else False)
+    if isinstance(last, ast.With):
+        return _falls_off(last.body)
+    if isinstance(last, (ast.For, ast.AsyncFor, ast.While, ast.Try, ast.Match)) or (hasattr(ast, 'TryStar') and isinstance(last, ast.TryStar)):
+        return None
+    return True
+
+
+_FOLLOWING = []
+_BUILTIN_NAMES = frozenset(dir(builtins))
+
+
+def _followed_returns(fi, call):
+    """What a call of a function of the package that the loader did not dissolve (a public helper: ``self.m(..)``, ``f(..)``)
+    can evaluate to, *in the caller's terms*: the sources of every ``return`` of the callee (None when it can run off its
+    end), its parameters replaced by the argument expressions of this call (defaults for the ones not passed).  The
+    helper is read, not run.  None when the binding or the body is outside what is followed soundly: a decorated /
+    generator / async / variadic callee, ``*`` / ``**`` at the call, a parameter that is re-bound, a returned expression that
+    reads a local of the callee (it would mean nothing in the caller), a name that the caller binds itself, a callee of
+    another module reading its globals, recursion."""
+    if not isinstance(call, ast.Call):
+        return None
+    try:
+        cal = _callee_info(fi, call)
+    except AnalysisError:
+        raise
+    except Exception:
+        return None
+    if cal is None or cal is fi or any(c is cal for c in _FOLLOWING) or len(_FOLLOWING) > 3:
+        return None
+    node = cal.node
+    a = node.args
+    if not isinstance(node, ast.FunctionDef) or node.decorator_list or a.vararg or a.kwarg:
+        return None
+    for n in walk_body(node):
+        if isinstance(n, (ast.Yield, ast.YieldFrom, ast.Await, ast.Global, ast.Nonlocal, ast.NamedExpr)):
+            return None
+    if any(isinstance(x, ast.Starred) for x in call.args) or any(k.arg is None for k in call.keywords):
+        return None
+    pos = [x.arg for x in a.posonlyargs + a.args]
+    bind = {}
+    if isinstance(call.func, ast.Attribute):
+        if cal.cls is None or not pos:
+            return None
+        bind[pos[0]] = call.func.value          # self.m(..): the receiver
+        pos = pos[1:]
+    elif cal.cls is not None:
+        return None
+    if len(call.args) > len(pos):
+        return None
+    for p, v in zip(pos, call.args):
+        bind[p] = v
+    names = set(pos) | set(x.arg for x in a.kwonlyargs)
+    for k in call.keywords:
+        if k.arg not in names or k.arg in bind or k.arg in [x.arg for x in a.posonlyargs]:
+            return None
+        bind[k.arg] = k.value
+    allpos = a.posonlyargs + a.args
+    defaults = dict(zip([x.arg for x in allpos[len(allpos) - len(a.defaults):]], a.defaults))
+    defaults.update((x.arg, d) for x, d in zip(a.kwonlyargs, a.kw_defaults) if d is not None)
+    for p in names:
+        if p not in bind:
+            d = defaults.get(p)
+            if not isinstance(d, ast.Constant):       # (a default is evaluated where the helper is defined)
+                return None
+            bind[p] = d
+    params = set(bind)
+    if params != set(cal.params()):
+        return None
+    stored = set(n.id for n in walk_body(node) if isinstance(n, ast.Name) and isinstance(n.ctx, (ast.Store, ast.Del)))
+    if stored & params:
+        return None
+    own = _locals_of(cal) - params
+    mine = _locals_of(fi)
+    falls = _falls_off(node.body)
+    if falls is None:
+        return None
+    vals = []
+    _FOLLOWING.append(cal)
+    try:
+        for r in returns_of(cal):
+            for s in (_srcs(cal, r.value) if r.value is not None else [ast.copy_location(ast.Constant(value=None), r)]):
+                if not isinstance(s, ast.expr):
+                    return None
+                if _is_param(s):
+                    vals.append(bind[s.id])
+                    continue
+                for n in ast.walk(s):
+                    if isinstance(n, (ast.Lambda, ast.ListComp, ast.SetComp, ast.DictComp, ast.GeneratorExp)):
+                        return None
+                    if isinstance(n, ast.Name) and n.id not in params:
+                        if n.id in own or n.id in mine or (cal.mod is not fi.mod and n.id not in _BUILTIN_NAMES):
+                            return None
+
+                class Sub(ast.NodeTransformer):
+                    def visit_Name(self, n):
+                        return copy.deepcopy(bind[n.id]) if n.id in params and isinstance(n.ctx, ast.Load) else n
+                vals.append(ast.fix_missing_locations(ast.copy_location(Sub().visit(copy.deepcopy(s)), call)))
+    finally:
+        _FOLLOWING.pop()
+    if falls:
+        vals.append(ast.copy_location(ast.Constant(value=None), call))
+    return vals or None
+
+
 def _all_srcs(fi, expr, pred, known=()):
     """Every source of ``expr`` satisfies ``pred``.  A source produced by a function of the package that the loader
-    did not dissolve (and that is not one of the ``known`` primitives) cannot be judged here: analysis error."""
+    did not dissolve (and that is not one of the ``known`` primitives) is judged through what that function can return
+    (_followed_returns: every returned value, in the caller's terms, must satisfy ``pred`` -- exactly what would be asked
+    had the helper been written in line); where that cannot be followed soundly: analysis error."""
     ss = _srcs(fi, expr) if expr is not None else []
     ok = bool(ss)
     for x in ss:
         if isinstance(x, ast.expr) and pred(x):
             continue
-        ok = False
         callee = _internal_callee(fi, x) if isinstance(x, ast.expr) else None
         if callee is not None and callee not in known:
-            raise AnalysisError('%s: value %s comes from %s(), which is not followed' % (fi.qualname, short(expr), callee))
+            vals = _followed_returns(fi, x)
+            if vals is None:
+                raise AnalysisError('%s: value %s comes from %s(), which is not followed' % (fi.qualname, short(expr), callee))
+            if all(_all_srcs(fi, v, pred, known) for v in vals):
+                continue
+        ok = False
     return ok
 
 
